@@ -98,9 +98,9 @@ def partial(t, dim, order=1, bounds=None, periodic=False):
             if periodic[i]:
                 if t2.Us[d] is None:
                     t2.cores[d] = (
-                        t2.cores[d][:, list(range(1, t2.cores[d].shape[1])) + [0], :]
+                        t2.cores[d][..., list(range(1, t2.cores[d].shape[-2])) + [0], :]
                         - t2.cores[d][
-                            :, [-1] + list(range(0, t2.cores[d].shape[1] - 1)), :
+                            ..., [-1] + list(range(0, t2.cores[d].shape[-2] - 1)), :
                         ]
                     ) / step
                 else:
@@ -111,14 +111,16 @@ def partial(t, dim, order=1, bounds=None, periodic=False):
             else:
                 if t2.Us[d] is None:
                     t2.cores[d] = t2.cores[d][
-                        :, [0] + list(range(t2.shape[d])) + [t2.shape[d] - 1], :
+                        ..., [0] + list(range(t2.shape[d])) + [t2.shape[d] - 1], :
                     ]
-                    t2.cores[d][:, 0, :] -= t2.cores[d][:, 2, :] - t2.cores[d][:, 1, :]
-                    t2.cores[d][:, -1, :] += (
-                        t2.cores[d][:, -2, :] - t2.cores[d][:, -3, :]
+                    t2.cores[d][..., 0, :] -= (
+                        t2.cores[d][..., 2, :] - t2.cores[d][..., 1, :]
+                    )
+                    t2.cores[d][..., -1, :] += (
+                        t2.cores[d][..., -2, :] - t2.cores[d][..., -3, :]
                     )
                     t2.cores[d] = (
-                        t2.cores[d][:, 2:, :] - t2.cores[d][:, :-2, :]
+                        t2.cores[d][..., 2:, :] - t2.cores[d][..., :-2, :]
                     ) / step
                 else:
                     t2.Us[d] = t2.Us[d][
